@@ -7,11 +7,11 @@ open Comrak.C16
 #print axioms extension_on_iff
 #print axioms unflagged_options_default
 #print axioms defaults
-#print axioms mergeConfig_eq_append_partial
+#print axioms mergeConfig_eq_append
+#print axioms mergeConfigOld_eq_append_partial
 #print axioms mergeConfig_nil
-#print axioms mergeConfig_non_unicode_counterexample
-#print axioms mergeConfig_panic_counterexample
-#print axioms mergeConfigFull_fails
+#print axioms mergeConfigOld_non_unicode_counterexample
+#print axioms mergeConfigOld_panic_counterexample
 #print axioms formatter_choice
 #print axioms sink_choice
 #print axioms inputs_concatenated
